@@ -257,6 +257,14 @@ def h_get_property(env, c):
 
 
 # ---------------------------------------------------------------------------------------------------- read memory
+def SUCCESS_LABEL(seen):
+    """a success that the events do not justify: after a link fault (connection error / silence) in the exchange it is a
+    different obligation than the recorded finding 'data phase closed early with SUCCESS'"""
+    if any(k in (CONNERR, TIMEOUT) for k, _ in seen):
+        return "read.no_success_after_a_link_fault"
+    return "read.success_only_when_device_completed_the_transfer"
+
+
 def h_read_memory(env, c):
     script, iface, mb = mk(env, c, 0xA3)
     addr = env.int("address", 0, 0xFFFFFFFF)
@@ -321,13 +329,13 @@ def h_read_memory(env, c):
     if not usb:
         # success claimed => justified by the events, data exact and complete
         if success and env.is_true(True):
-            env.prove(ok, "read.success_only_when_device_completed_the_transfer")
+            env.prove(ok, SUCCESS_LABEL(seen))
             if ok:
                 env.prove(len(res) == len(got) and env.is_true(env.bytes_eq(res, got)) if not env.symbolic else
                           (env.bytes_eq(res, got) if len(res) == len(got) else False), "read.data_exact_and_complete")
     else:
         if success and len(res) > 0 or (success and length == 0):
-            env.prove(ok, "read.success_only_when_device_completed_the_transfer")
+            env.prove(ok, SUCCESS_LABEL(seen))
             if ok:
                 env.prove(len(res) == length, "read.data_complete")
                 env.prove(len(res) == len(got) and env.is_true(env.bytes_eq(res, got)) if not env.symbolic else
